@@ -24,7 +24,7 @@ type Win struct {
 }
 
 func (w Win) valid(C int) bool {
-	if w.Kr < 0 || w.A < 0 || w.A > w.B || w.B > w.Kr || w.Partial < 0 || C*w.Kr > 1<<20 || w.Fix < 0 || w.Fix > 2 {
+	if w.Kr < 0 || w.A < 0 || w.A > w.B || w.B > w.Kr || w.Partial < 0 || C*w.Kr > 1<<20 || w.Fix < 0 || w.Fix == 3 || w.Fix > 1<<12 {
 		return false
 	}
 	return w.Partial == 0 || (w.Partial < C && w.B < w.Kr)
@@ -90,8 +90,13 @@ func Check(c *Case) (res kit.Result) {
 	for k := 0; k < sn; k++ {
 		sroot.Set(soff+k, c.Vals[k%len(c.Vals)])
 	}
-	if c.Src.Fix != 0 || c.Dst.Fix != 0 {
+	if f := c.Src.Fix; f == 1 || f == 2 {
 		res.Class("headerNeverWrittenThrough")
+	} else if f := c.Dst.Fix; f == 1 || f == 2 {
+		res.Class("headerNeverWrittenThrough")
+	}
+	if c.Src.Fix >= 4 || c.Dst.Fix >= 4 {
+		res.Class("contentAppendedInTwoPieces")
 	}
 	if c.DstFill < 0 || c.DstFill > 2 {
 		return kit.Result{}
@@ -271,7 +276,7 @@ func genWin(t *rapid.T, label string, C int) Win {
 	if w.B < w.Kr && C >= 2 && rapid.IntRange(0, 3).Draw(t, label+"PartialSel") == 0 {
 		w.Partial = rapid.IntRange(1, C-1).Draw(t, label+"Partial")
 	}
-	w.Fix = rapid.IntRange(0, 2).Draw(t, label+"Fix")
+	w.Fix = kit.GenFix(t, label+"Fix", C)
 	return w
 }
 
